@@ -43,8 +43,8 @@ def contract(cell, ir):
     a, b = R.interface(want, keep_returns=True), R.interface(back, keep_returns=True)
     d = R.diff(a, b)
     if d:
-        field = "names" if d.startswith("parameter names") else ("returns" if d.startswith("return entry") else d.split(":")[0].split(".")[-1])
-        src = ir["params"].get(d.split(".")[0], {}) if field not in ("names", "returns") else {}
+        field = "names" if d.startswith("parameter names") else ("returns" if d.startswith("return entry") else (d.split(":")[0] if d.startswith("returns.") else d.split(":")[0].split(".")[-1]))
+        src = ir["params"].get(d.split(".")[0], {}) if field not in ("names", "returns") and not field.startswith("returns.") else {}
         out.append((("roundtrip", style, "defaults_in_doc=%s" % edd, "types=%s" % et, field, M.typ_class(src.get("typ")) if src else "-", M.default_class(src) if src else "-"),
                     "%s; emitted docstring:\n%s" % (d, text[-300:]), None))
     return out
